@@ -8,9 +8,15 @@ use crate::refs::spec;
 use crate::util::{hex, monitored, ncpu, par_for, rng_for, short_loc, unhex, Ctx, Report};
 use falcon_rust::verif_hooks as vh;
 
+thread_local! {
+    /// the input hashed just before on this thread (call-sequence findings need it to replay)
+    static PREVIOUS: std::cell::RefCell<Vec<u8>> = std::cell::RefCell::new(vec![]);
+}
+
 fn check(s: &[u8], rep: &mut Report) -> u32 {
     rep.evaluations += 1;
-    let replay = || json!({"kind": "h2p", "input": if s.len() <= 4096 { hex(s) } else { format!("len:{}", s.len()) }});
+    let prev: Vec<u8> = PREVIOUS.with(|p| std::mem::replace(&mut *p.borrow_mut(), if s.len() <= 4096 { s.to_vec() } else { vec![] }));
+    let replay = || json!({"kind": "h2p", "input": if s.len() <= 4096 { hex(s) } else { format!("len:{}", s.len()) }, "hashed_just_before": hex(&prev)});
     let (w1024, tr) = spec::hash_to_point_traced(s, 1024);
     let (_, tr512) = spec::hash_to_point_traced(s, 512);
     let ss = s.to_vec();
@@ -108,6 +114,42 @@ pub fn differential(ctx: &Ctx, rep: &mut Report) {
         }
     });
     rep.merge(r);
+    // fingerprint-colliding pairs (see collide.rs): two different inputs of one length that agree
+    // in a cheap fingerprint, hashed A, B, A on one thread
+    let ncand = ctx.sz(1_200_000, 6_000_000);
+    let fams: Vec<(usize, bool)> = vec![(8, true), (42, true), (42, false), (200, true)];
+    let r = par_for(fams.len(), ncpu(), |fi, rep| {
+        let (len, counter_last) = fams[fi];
+        let mut rng = rng_for(ctx.seed, &format!("c14-collide-{}", fi));
+        let fixed = rand_bytes(&mut rng, len - 8);
+        let cands: Vec<Vec<u8>> = (0..ncand / fams.len())
+            .map(|_| {
+                let ctr: [u8; 8] = rng.gen();
+                let mut v = Vec::with_capacity(len);
+                if counter_last {
+                    v.extend_from_slice(&fixed);
+                    v.extend_from_slice(&ctr);
+                } else {
+                    v.extend_from_slice(&ctr);
+                    v.extend_from_slice(&fixed);
+                }
+                v
+            })
+            .collect();
+        for (name, a, b) in crate::collide::pairs(&cands, 3) {
+            check(&cands[a], rep);
+            check(&cands[b], rep);
+            check(&cands[a], rep);
+            rep.count("fingerprint_colliding_pairs", 1);
+            rep.count(&format!("collide_{}", name), 1);
+            rep.nontrivial(format!("collide|{}|{}|{}", name, hex(&cands[a]), hex(&cands[b])).as_bytes());
+        }
+    });
+    rep.merge(r);
+    rep.require("fingerprint_colliding_pairs", 12);
+    rep.require("collide_siphash-write-lo32", 1);
+    rep.require("collide_siphash-hash-lo32", 1);
+    rep.require("collide_crc32", 1);
     rep.require("lengths", 301);
     rep.require("chunks_61444", 100);
     rep.require("chunks_61445", 100);
@@ -207,6 +249,12 @@ pub fn replay(r: &Value) -> bool {
         println!("input too large to be stored; re-run the leg with the recorded seed");
         crate::util::not_replayable();
         return false;
+    }
+    if let Some(p) = r["hashed_just_before"].as_str() {
+        // sequence-dependent findings: the predecessor first, same thread (its own verdict is
+        // not part of this replay)
+        let mut scratch = Report::new();
+        check(&unhex(p), &mut scratch);
     }
     check(&unhex(inp), &mut rep);
     crate::util::print_replay(&rep)
